@@ -61,6 +61,10 @@ CLI_OPTIONS = [
     ("return_scalar_pointer", "scalar"), ("C_API_case", "lower"), ("C_API_case", "upper"),
     ("F_API_case", "preserve"), ("show_splicer_comments", False), ("F_CFI", True),
     ("literalinclude2", True), ("F_assumed_rank_max", 3), ("PY_array_arg", "list"),
+    # name templates (reference.rst): a value that is one {field}, and values with several
+    ("F_name_generic_template", "{underscore_name}"), ("F_name_generic_template", "{function_name}"),
+    ("F_name_function_template", "{underscore_name}_fn{function_suffix}{template_suffix}"),
+    ("C_name_template", "{C_prefix}{C_name_scope}{underscore_name}_c{function_suffix}{template_suffix}"),
 ]
 
 SKIP = ("json", "log")
@@ -528,6 +532,10 @@ def run(ctx):
             if m["language"] == "c":
                 opts = [kv for kv in opts if kv[0] not in ("wrap_lua",)]
             jobs.append(dict(kind="c", name=name, yaml=text, argv=[], opts=[list(kv) for kv in opts], language=lang))
+        if i < 4:
+            # (the template-valued options in turn: a few draws leave them out)
+            tv = [kv for kv in CLI_OPTIONS if isinstance(kv[1], str) and "{" in kv[1]]
+            jobs.append(dict(kind="c", name=name, yaml=text, argv=[], opts=[list(tv[i % len(tv)])], language=None))
         nd = len(m["decls"])
         for span in smallgen.sample(st.integers(0, nd - 1).flatmap(lambda a: st.tuples(st.just(a), st.integers(a + 1, nd))),
                                     ctx.seed * 41 + i, 1 if quick else 3):
